@@ -59,7 +59,8 @@ OPAQUE = {'evaluate_viability', 'evaluate_necessity', 'propagate_viability_from_
 def run(ctx) -> list[Inst]:
     prog = ctx.prog
     with open(REF, encoding='utf-8') as fh:
-        reft = ast.parse(fh.read())
+        from ..normalize import normalize
+        reft = normalize(ast.parse(fh.read()))
     ref_funcs = {n.name: n for n in reft.body if isinstance(n, ast.FunctionDef)}
     for cls in reft.body:
         if isinstance(cls, ast.ClassDef):
